@@ -172,7 +172,11 @@ def r02_1(ctx):
     judge([0xf0, 0xf7, 0xf7], 0xf0, 2, False, '0xf0 0xf7 0xf7', 'sysex')
     judge([0xf0, D, 0x90, D, 0xf7], 0xf0, 4, False, '0xf0 D* 0x90 D* 0xf7', 'sysex')
     judge([0xf0, D, 0xf8, 0xf7], 0xf0, 3, False, '0xf0 D* 0xf8 0xf7', 'sysex')
-    ctx.floor('R02.1', shapes, 255 * 5 + 9)
+    judge([0xf0, D, 0x90], 0xf0, 2, False, '0xf0 D* 0x90', 'sysex')
+    judge([0xf0, D, 0xf8], 0xf0, 2, False, '0xf0 D* 0xf8', 'sysex')
+    judge([0xf0, 0x80], 0xf0, 1, False, '0xf0 0x80', 'sysex')
+    judge([0xf0, D, 0xff], 0xf0, 2, False, '0xf0 D* 0xff', 'sysex')
+    ctx.floor('R02.1', shapes, 255 * 5 + 13)
     ctx.floor('R02.1-families', len(families), 19)
     for q in ai.inlined:
         ctx.functions.add(q)
